@@ -193,6 +193,26 @@ func runC18(c *Ctx) {
 		}
 	}
 
+	// ---- C18.oneline: the formatting helpers build a new operand list; they do not write into the caller's variadic slice
+	// (with spare capacity behind it, the caller's own values - or another goroutine's - would be overwritten)
+	for _, name := range []string{"(*loggerPlus).format", "(*loggerPlus).formatf", "(*loggerPlus).contextFormat", "(*loggerPlus).contextFormatf"} {
+		fn := P.Func("logger", name)
+		if !R.Anchor(fn != nil, "C18.oneline", "logger."+name) {
+			continue
+		}
+		bad := ""
+		for _, prm := range fn.Params {
+			if _, isSlice := prm.Type().Underlying().(*types.Slice); isSlice {
+				if w := writesThrough(P, fn, prm); w != "" {
+					bad = w
+				}
+			}
+		}
+		R.Check(bad == "", "C18.oneline", "logger|"+name+"|operands-not-modified", P.Pos(fn.Pos()),
+			"the prefix is put in front of the operands in a new slice",
+			"the helper writes into the caller's operand slice ("+bad+"): when that slice has spare capacity the caller's values are overwritten, a later line prints another connection's prefix, and two goroutines sharing the operands race", nil)
+	}
+
 	// ---- C18.ctx
 	for _, pair := range [][2]string{{"(*loggerPlus).contextFormat", "format"}, {"(*loggerPlus).contextFormatf", "formatf"}} {
 		fn := P.Func("logger", pair[0])
